@@ -604,12 +604,18 @@ func (x *Exec) applySpecNamed(st *State, c *ssa.Call, fn *ssa.Function, spec *Fu
 	}
 	// frame: havoc what the callee may assign
 	x.modelHandles = nil
+	// all targets are evaluated in the pre-state before anything is havocked
+	aenv := *env
+	aenv.heap = pre
+	var allLocs []assignLoc
 	for _, a := range spec.Assigns {
-		locs := x.evalAssignTarget(env, a, spec)
-		for _, loc := range locs {
-			x.checkLocAssignable(st, c, loc, calleeName)
-			x.havocLoc(st, loc)
-		}
+		allLocs = append(allLocs, x.evalAssignTarget(&aenv, a, spec)...)
+	}
+	for _, loc := range allLocs {
+		x.checkLocAssignable(st, c, loc, calleeName)
+	}
+	for _, loc := range allLocs {
+		x.havocLoc(st, loc)
 	}
 	// results
 	rnames := resultNames(spec, sig)
